@@ -27,12 +27,12 @@ CLAIMED = {
   "Bracket pairs are chosen by variable naming (<p>X / <p>Delta); the relation itself is decided on SSA values.",
   "relational greatest-fixpoint analysis over SSA phi pairs + guard-edge/path checks"),
  "C19": ("other",
-  "Narrow structural claim: the month-length table has the twelve Gregorian constants and is never written; the month-length function returns table[month-1] or 29 exactly under month==2 and the leap predicate; the leap predicate is decided exactly by abstract interpretation over the congruence domain: its decision tree over y%c==0 tests is evaluated for every residue class modulo lcm(c...) (required to be a multiple of 400) and equals the Gregorian rule in each class, whatever form the predicate is written in. The generator's day/month/year roll-over and day-of-year accumulation are NOT decided.",
+  "Narrow structural claim: the month-length table has the twelve Gregorian constants and is never written; the month-length function returns table[month-1] or 29 exactly under month==2 and the leap predicate; the leap predicate is decided exactly by abstract interpretation over the congruence domain: its decision tree over y%c==0 tests is evaluated for every residue class modulo lcm(c...) (required to be a multiple of 400) and equals the Gregorian rule in each class, whatever form the predicate is written in; at every call of the month-length function, the leap predicate or a helper built on them the date kernel passes its month variable in the month position and its year variable in the year position (variables told apart by the output each is written to). The generator's day/month/year roll-over and day-of-year accumulation are NOT decided.",
   "DESIGN.md section 2, C19",
   "The predicate must branch only on y%c ==/!= 0 tests (otherwise undecided). Nothing is executed; residues are abstract elements.",
   "constant evaluation by go/types + congruence-domain abstract interpretation of the CFG"),
  "C17": ("other",
-  "Structural clauses of 'always answers' and of the reporting rules, decided on every path of the runner: the deferred result encoding is registered first in the entry block and encodeResults calls Encode on the runner's writer exactly once on every path (one document per exit); every interface value dereferenced between decoding and Run and every argument of Run is non-nil on all paths (nil-ness lattice with per-return-site summaries; found and fixed the no-inputs request); the catalogue factory is nil-checked before the call; a float64 enters the result tree only through JsonSafeValue under !IsNaN && !IsInf(.,0) and every element/map entry comes from the JSON-safe functions; defaults are returned only with a message, defaulted parameters and missing inputs append warnings and all warnings are logged before Run; request input k is copied into row k of the model's input array (position in the model description, not in the request); the runner lacks the dimension handshake of its sibling entry points (known finding). Equivalence with a direct run and panic-freedom of kernels are NOT decided.",
+  "Structural clauses of 'always answers' and of the reporting rules, decided on every path of the runner: the deferred result encoding is registered first in the entry block and encodeResults calls Encode on the runner's writer exactly once on every path (one document per exit); every interface value dereferenced between decoding and Run and every argument of Run is non-nil on all paths (nil-ness lattice with per-return-site summaries; found and fixed the no-inputs request); the catalogue factory is nil-checked before the call; a float64 enters the result tree only through JsonSafeValue under !IsNaN && !IsInf(.,0) and every element/map entry comes from the JSON-safe functions; defaults are returned only with a message, defaulted parameters and missing inputs append warnings and all warnings are logged before Run; request input k is copied into row k of the model's input array (position in the model description, not in the request); the JSON conversion never writes through the array it converts (Shape() aliases the array's own dimension vector); the runner lacks the dimension handshake of its sibling entry points (known finding). Equivalence with a direct run and panic-freedom of kernels are NOT decided.",
   "DESIGN.md section 2, C17",
   "Results of TimeSteppingModel interface methods are assumed non-nil by contract. Kernels run in goroutines the runner cannot recover; their panic-freedom is a value property.",
   "must-pass-through / dominance checks + interprocedural nil-ness lattice + guard-edge check of the non-finite encoding on go/ssa"),
@@ -57,7 +57,7 @@ CLAIMED = {
   "Anchors are found structurally (function reaching WriteData, goroutine calling it, its channel). No model checking of the writer/main interleavings; the token argument is an inductive invariant checked by local rules only.",
   "protocol invariants by dominance/must-pass-through on go/ssa + symbolic leaf comparison of offsets + bool-correlated definite assignment"),
  "C06": ("other",
-  "Decides, for every path of each of the 17 stateful kernels and all 41 wrappers, that what is carried between timesteps comes from and goes back to the state vector: every value carried around the time loop (SSA header phi or buffer allocated outside the loop and read before written) that influences outputs is initialised from a STATE argument and reaches a returned state; a state the kernel evolves is not returned unevolved; wrappers read state k into kernel argument nInputs+k and write the kernel's k-th state result back to position k (or extract→kernel→pack in matching order); the two custom pack/extract pairs store the contents of every component and read it at the same symbolic offset; where a kernel hands the run to another catalogued kernel, the caller state passed as the callee's state k is the state the callee's evolved state k is returned as. This found five genuine defects (three repaired, two recorded as known findings needing new state variables). Numerical equality of split and unsplit runs is NOT decided.",
+  "Decides, for every path of each of the 17 stateful kernels and all 41 wrappers, that what is carried between timesteps comes from and goes back to the state vector: every value carried around the time loop (SSA header phi or buffer allocated outside the loop and read before written) that influences outputs is initialised from a STATE argument and reaches a returned state; a state the kernel evolves is not returned unevolved; wrappers read state k into kernel argument nInputs+k and write the kernel's k-th state result back to position k (or extract→kernel→pack in matching order); the two custom pack/extract pairs store the contents of every component and read it at the same symbolic offset; where a kernel hands the run to another catalogued kernel, the caller state passed as the callee's state k is the state the callee's evolved state k is returned as; in kernels with one time loop no value computed inside the loop that influences outputs or states is derived from the length of the series (run-length independence); successive counting loops that rewrite a slice-typed state buffer start at 0 or exactly where the previous one ended, as linear forms (found and fixed the lag buffer refill for calls shorter than the lag). This found six genuine defects (three repaired, two recorded as known findings needing new state variables). Numerical equality of split and unsplit runs is NOT decided.",
   "DESIGN.md section 2, C06",
   "One symbol-wide exception (storageRouting:qi, solver warm start, within the property's stated tolerance). Time loops are recognised as outermost loops bounded by a series length; control influence is approximated by branch regions.",
   "loop-carried-value (SSA phi / memory) provenance analysis + symbolic layout comparison of pack/extract"),
@@ -72,7 +72,7 @@ CLAIMED = {
   "Dims/OriginalDims are untyped; literals and lengths are polymorphic; a wrong constant factor would pass. In-bounds-ness of loc/dims/step is assumed.",
   "dimensional (unit) abstract interpretation over go/ssa + storage-sharing and addressing-path checks"),
  "C02": ("other",
-  "Structural clauses of the bulk operations, per element type: every range access Impl[a:b] and every write through x.Unroll() that relies on aliasing is dominated by Contiguous()==true on that object (or x is a fresh root array); the contiguity predicate branches on Step, Dims and OriginalDims/Offset; Go-backed Unroll returns a sub-slice of the storage when contiguous — and a gathered copy only on a path where Contiguous() is known false — and Reshape builds on it; ReshapeFast fails exactly under !Contiguous(), Reshape succeeds exactly on the equal edge of the element-count comparison; fresh strides are laid over own storage only when contiguous; Argmax returns an index of its parameter (index-space typing; found and fixed an off-by-one). Equality of fast and general paths as values is NOT decided.",
+  "Structural clauses of the bulk operations, per element type: every range access Impl[a:b] and every write through x.Unroll() that relies on aliasing is dominated by Contiguous()==true on that object (or x is a fresh root array); the contiguity predicate branches on Step, Dims and OriginalDims/Offset; Go-backed Unroll returns a sub-slice of the storage when contiguous — and a gathered copy only on a path where Contiguous() is known false — and Reshape builds on it; ReshapeFast fails exactly under !Contiguous(), Reshape succeeds exactly on the equal edge of the element-count comparison; fresh strides are laid over own storage only when contiguous; Argmax returns an index of its parameter (index-space typing; found and fixed an off-by-one); a row-major position within a view is decoded with Offsets(dims) of the very dims it is reduced modulo (not with the array's stored strides). Equality of fast and general paths as values is NOT decided.",
   "DESIGN.md section 2, C02",
   "Exactness of Contiguous' arithmetic and of Increment/Offsets/IDivMod/Product is not decided. C-backed types are judged under C03.",
   "guard-edge dominance, alias tracking of Unroll results and index-space typing on go/ssa"),
@@ -87,7 +87,7 @@ CLAIMED = {
   "ND view methods (Slice/Reshape/MustReshape/ReshapeFast) are taken to share storage (checked separately by C01/C02). Row count of pack-function results proven only for constant extents. ApplyParameters row-block arithmetic not decided.",
   "effect summaries + reaching-store evaluation of index vectors on go/ssa, per generated wrapper"),
  "C05": ("other",
-  "Goroutine confinement and counted join for all 43 go statements in the module: captured variables are never assigned in the goroutine nor by the spawner once it may run; shared index vectors are never written (also not through Apply's loc); shared arrays are written only through per-cell views; every goroutine path signals exactly once and the spawner's returns are dominated by a receive loop with the same count; no function reachable from a cell goroutine writes package-level storage. No schedule is explored; the claim is absence of shared mutable locations, from which schedule independence follows.",
+  "Goroutine confinement and counted join for all 43 go statements in the module: captured variables are never assigned in the goroutine nor by the spawner once it may run; shared index vectors are never written (also not through Apply's loc); shared arrays are written only through per-cell views; every goroutine path signals exactly once and the spawner's returns are dominated by a receive loop with the same count; no function reachable from a cell goroutine writes package-level storage; nothing reachable from a cell goroutine writes through Run's inputs or a parameter view (shared by the cells whenever they repeat cyclically). No schedule is explored; the claim is absence of shared mutable locations, from which schedule independence follows.",
   "DESIGN.md section 2, C05",
   "Does not decide the writer-vs-main access to modelReference.Generations (token argument, see C07). Pointer arguments of distinct goroutines assumed distinct. No happens-before reasoning beyond the done-channel join.",
   "escape/confinement analysis of go closures + must-pass-through send/receive join check on go/ssa CFGs"),
@@ -97,7 +97,7 @@ CLAIMED = {
   "hdf5 is opaque (cannot be compiled here): its API is classified reader/writer/neutral by a table in tool/c08.go. Recursive read-locking is treated conservatively. Outside package io the unexported lock cannot be held: such calls are accepted only where statically no goroutine started by module code can exist.",
   "interprocedural lock-state dataflow (must-hold) over go/ssa + call-graph reachability + dominance of guard edges"),
  "C16": ("other",
-  "Decided by normal forms, not by running anything: (R16.3) for the partition, scaling, conversion, mask and concentration kernels the value written to each output on every write site is expanded to a polynomial (and each such output is written on every path through a timestep) over canonical symbols (input k at the loop's time index, parameter k) and compared with the property's identities: the two outputs of the fixed/variable/rating-curve partitions sum identically to the input; scale/delivery-ratio/depth-to-rate/concentration models are exactly the stated monomial with the exact unit factor (mm->m, mg/L->kg/m3); totals equal the sum of their parts; gate/pass-through masks write the input (x factor) exactly on the positive side of their driver test and zero otherwise. (R16.1) every A_TO_B conversion constant equals magnitude(A)/magnitude(B) exactly (rational arithmetic by the type checker) and inverse pairs multiply to 1; (R16.2) constants are used as factors only. (R16.4) for USLE fine sediment, bank erosion, particulate nutrient generation, the two gully models and the demand partition, 15 relations written with OW-SPEC names (totals = sum of parts, delivered load = generated load x delivery ratio, generated fine : (fine + coarse) = the model's fine fraction, dry-weather loads linear with the mg/L->kg/m3 factor, extraction + outflow = input) hold identically on every feasible CFG path through a timestep, with phis resolved by the path and scalar helpers inlined where needed. NOT decided: zero driver => zero load and non-negativity as such, the gully fine/coarse split (computed behind a function value), clamps that bind.",
+  "Decided by normal forms, not by running anything: (R16.3) for the partition, scaling, conversion, mask and concentration kernels the value written to each output on every write site is expanded to a polynomial (and each such output is written on every path through a timestep) over canonical symbols (input k at the loop's time index, parameter k) and compared with the property's identities: the two outputs of the fixed/variable/rating-curve partitions sum identically to the input; scale/delivery-ratio/depth-to-rate/concentration models are exactly the stated monomial with the exact unit factor (mm->m, mg/L->kg/m3); totals equal the sum of their parts; gate/pass-through masks write the input (x factor) exactly on the positive side of their driver test and zero otherwise. (R16.1) every A_TO_B conversion constant equals magnitude(A)/magnitude(B) exactly (rational arithmetic by the type checker) and inverse pairs multiply to 1; (R16.2) constants are used as factors only. (R16.4) for USLE fine sediment, bank erosion, particulate nutrient generation, the two gully models and the demand partition, 15 relations written with OW-SPEC names (totals = sum of parts, delivered load = generated load x delivery ratio, generated fine : (fine + coarse) = the model's fine fraction, dry-weather loads linear with the mg/L->kg/m3 factor, extraction + outflow = input) hold identically on every feasible CFG path through a timestep, with phis resolved by the path and scalar helpers inlined where needed. (R16.5) for 29 driven outputs of those models, on every feasible path that is possible with the driver (flow, sediment supply) at zero the written polynomial vanishes identically, with the gully export function passed as a function value resolved and inlined. NOT decided: non-negativity as such, the gully fine/coarse split (computed behind a function value), clamps that bind.",
   "DESIGN.md section 2, C16",
   "Identity table (model -> expected polynomial) is part of the checker and restates the property; opaque calls (Piecewise, Min/Max) are symbols. SI table of unit words in tool/c16.go.",
   "symbolic polynomial normal forms over go/ssa values + go/types constant evaluation"),
